@@ -26,7 +26,7 @@ class Cell:
         mod, fn = self.harness.split(':')
         call = ', '.join('%s=%s' % (n, n) for n, _ in self.sym)
         return (
-            'import vlib.%s as M\n'
+            'import re\nimport vlib.%s as M\n'
             'P = %r\n'
             'def cell(%s) -> bool:\n'
             '    """\n%s\n    post: _\n    """\n'
@@ -44,6 +44,8 @@ class Cell:
     def pre_holds(self, a):
         env = dict(a)
         env['P'] = self.params
+        import re
+        env['re'] = re
         try:
             return all(eval(p, {'__builtins__': __builtins__}, env) for p in self.pre)
         except Exception:
@@ -57,7 +59,12 @@ class Cell:
         ints = [n for n, t in self.sym if t == 'int']
         bools = [n for n, t in self.sym if t == 'bool']
         letters = 'abcdefghijklmnopqrstuvwxyz'
-        base = {n: letters[i % 26] * (1 + i // 26) for i, n in enumerate(strs)}
+        import re as _re
+        want_len = {}
+        for pr in self.pre:
+            for m in _re.finditer(r'len\((\w+)\) == (\d+)', pr):
+                want_len[m.group(1)] = int(m.group(2))
+        base = {n: letters[i % 26] * want_len.get(n, 1 + i // 26) for i, n in enumerate(strs)}
         for combo in itertools.product(range(-1, 6), repeat=len(ints)):
             for bcombo in itertools.product((False, True), repeat=len(bools)):
                 a = dict(base)
